@@ -382,3 +382,195 @@ class Model:
             v.kind = 'LOOP'
         v.walked_files = sorted(walked)
         return v
+
+
+# ----------------------------------------------------------------------------
+# M-audit: does the Manifest tree on disk describe the directory exactly?
+
+FILE_TAGS = ('DATA', 'MISC', 'EBUILD', 'AUX', 'MANIFEST')
+
+
+def logical_name(p):
+    c = G.comp_of(p)
+    return p[:-(len(c) + 1)] if c else p
+
+
+class Audit:
+    def __init__(self):
+        self.problems = []      # (code, path, detail)
+        self.manifests = {}     # path -> entries (in use)
+        self.entries = []       # (full, entry, manifest path)
+        self.files = []         # walked regular files in scope
+
+    def add(self, code, path, detail=''):
+        self.problems.append((code, path, detail))
+
+
+def audit(root, top, scope='', hashes=None, devmap=None, prior_in_use=()):
+    """Independent audit of the saved Manifest tree (C03/C13).  hashes=None
+    skips the key-set clause."""
+    a = Audit()
+    m = Model(root, top)
+    fi = probe(m._p(top), want_data=False)
+    if not fi.exists or fi.kind != 'file':
+        a.add('top-missing', top)
+        return a
+    ents, raw = m.read_manifest(top)
+    if ents is None:
+        a.add('manifest-unparseable', top)
+        return a
+    a.manifests[top] = ents
+    work = [top]
+    refcount = {}
+    while work:
+        mp = work.pop(0)
+        md = os.path.dirname(mp)
+        for e in a.manifests[mp]:
+            if e['tag'] != 'MANIFEST':
+                continue
+            full = os.path.normpath(pjoin(md, e['path']))
+            refcount[full] = refcount.get(full, 0) + 1
+            if full == mp:
+                a.add('manifest-references-itself', full)
+                continue
+            f2 = probe(m._p(full))
+            why = entry_matches(f2, e)
+            fd = os.path.dirname(full)
+            if why is not None and (psw(scope, fd) or psw(fd, scope)):
+                a.add('manifest-entry-stale', full, why)
+            if full in a.manifests:
+                continue
+            if f2.exists and f2.kind == 'file':
+                sub, raw = m.read_manifest(full)
+                if sub is None:
+                    a.add('manifest-unparseable', full)
+                    continue
+                a.manifests[full] = sub
+                work.append(full)
+    # one physical file per logical Manifest
+    by_logical = {}
+    for mp in a.manifests:
+        by_logical.setdefault(logical_name(mp), []).append(mp)
+    for ln, ps in by_logical.items():
+        d = os.path.dirname(ln)
+        base = os.path.basename(ln)
+        try:
+            names = _o['os.listdir'](m._p(d))
+        except OSError:
+            names = []
+        phys = sorted(n for n in names if n == base or (n.startswith(base + '.') and G.comp_of(n) and logical_name(n) == base))
+        # only files that are, or were before the operation, Manifests in use
+        phys = [n for n in phys if pjoin(d, n) in a.manifests or pjoin(d, n) in prior_in_use]
+        if len(phys) > 1:
+            a.add('manifest-leftover', ln, ','.join(phys))
+    ignores = []
+    for mp, ents in a.manifests.items():
+        md = os.path.dirname(mp)
+        for e in ents:
+            if e['tag'] == 'IGNORE':
+                ignores.append(os.path.normpath(pjoin(md, e['path'])))
+            elif e['tag'] in FILE_TAGS:
+                a.entries.append((os.path.normpath(pjoin(md, e['path'])), e, mp))
+    by_path = {}
+    for full, e, mp in a.entries:
+        by_path.setdefault(full, []).append((e, mp))
+    # walk the scope
+    v = Verdict()
+    v.loop = False
+    ign_entries = dict((i, {'tag': 'IGNORE'}) for i in ignores)
+    walked = m.walk(scope, ign_entries, v)
+    for rel, f in walked:
+        if rel == top and os.path.dirname(rel) == '':
+            continue
+        if any(psw(rel, i) for i in ignores):
+            continue
+        if not f.exists:
+            continue      # dangling symlink: invisible
+        if f.kind != 'file':
+            a.add('special-file-in-tree', rel)
+            continue
+        a.files.append(rel)
+        es = by_path.get(rel, [])
+        if not es:
+            a.add('file-not-covered', rel)
+            continue
+        if len(es) > 1:
+            a.add('file-covered-twice', rel, ','.join(mp for e, mp in es))
+        f2 = probe(m._p(rel))
+        for e, mp in es:
+            why = entry_matches(f2, e)
+            if why is not None:
+                a.add('entry-wrong', rel, why + ' in ' + mp)
+            if hashes is not None and set(e['sums']) != set(hashes):
+                a.add('entry-hash-set', rel, '%s has %s want %s' % (mp, sorted(e['sums']), sorted(hashes)))
+    for full, es in by_path.items():
+        if not psw(full, scope):
+            continue
+        if any(psw(full, i) for i in ignores):
+            continue
+        f2 = probe(m._p(full), want_data=False)
+        if not f2.exists:
+            a.add('entry-for-vanished-file', full, es[0][1])
+        elif f2.kind != 'file':
+            a.add('entry-for-non-file', full, es[0][1])
+    return a
+
+
+# ----------------------------------------------------------------------------
+# M-find: upward discovery of the top-level Manifest (C15)
+
+MANIFEST_NAMES = ['Manifest', 'Manifest.gz', 'Manifest.bz2', 'Manifest.lzma', 'Manifest.xz']
+
+
+def dev_of_rel(mounts, rel, default=1001):
+    best, bl = default, -1
+    for m, dev in mounts.items():
+        if (rel == m or rel.startswith(m + '/')) and len(m) > bl:
+            best, bl = dev, len(m)
+    return best
+
+
+def m_find(base, mounts, start, allow_compressed, allow_xdev):
+    """Returns (set of acceptable answers as base-relative paths or {None})."""
+    names = MANIFEST_NAMES if allow_compressed else MANIFEST_NAMES[:1]
+    cur = start
+    odev = dev_of_rel(mounts, cur if cur else '.')
+    last = {None}
+    while True:
+        if dev_of_rel(mounts, cur if cur else '.') != odev and not allow_xdev:
+            break
+        present = [n for n in names if os.path.lexists(os.path.join(base, cur, n))]
+        if present:
+            # the reader takes the first present name; the statement leaves the
+            # choice open, so the decision (ignore / boundary) is evaluated for
+            # the first and both names are acceptable answers if it is accepted
+            n = present[0]
+            rel = (cur + '/' if cur else '') + n
+            if dev_of_rel(mounts, rel) != odev and not allow_xdev:
+                return last
+            with _o['open'](os.path.join(base, rel), 'rb') as f:
+                ents = G.parse(G.decompress(f.read(), G.comp_of(n)).decode('utf8'))
+            relstart = os.path.relpath(start or '.', cur or '.')
+            if relstart == '.':
+                relstart = ''
+            if relstart and any(e['tag'] == 'IGNORE' and psw(relstart, e['path']) for e in ents):
+                return last
+            last = {rel}
+            if len(present) > 1:
+                last = {(cur + '/' if cur else '') + p for p in present}
+        if cur == '':
+            break
+        cur = os.path.dirname(cur)
+    return last
+
+
+
+
+def cli_discovers_root_top(root, sub):
+    """Would `gemato <cmd> root/sub` pick root/Manifest as its top-level
+    Manifest?  (Upward discovery is C15's subject; other properties only use
+    the CLI where it lands on the tree's own top-level Manifest.)"""
+    try:
+        return m_find(root, {}, sub, False, True) == {'Manifest'}
+    except Exception:
+        return False
